@@ -244,7 +244,55 @@ func runC17(c *Ctx) {
 				}
 				w.FromEdge(e.From, e.Succ)
 			}
-			if len(miss) > 0 && core.CutMakesUnreachable(hu, nil, miss, pc) && fed && !skipped {
+			direct := len(miss) > 0 && core.CutMakesUnreachable(hu, nil, miss, pc) && fed && !skipped
+			// collect-then-apply form: the names are first gathered into a list (appended only
+			// below the "not in the new list" edge, and on every path from it), then each is pruned
+			collected := false
+			if !direct && len(miss) > 0 && fed {
+				var feeders []*ssa.Call
+				for _, b := range hu.Blocks {
+					for _, x := range b.Instrs {
+						call, ok := x.(*ssa.Call)
+						if !ok {
+							continue
+						}
+						if bi, ok := call.Call.Value.(*ssa.Builtin); !ok || bi.Name() != "append" {
+							continue
+						}
+						feeds := false
+						core.ForwardUses(call, func(u ssa.Instruction, _ ssa.Value) { feeds = feeds || u == pc })
+						if feeds {
+							feeders = append(feeders, call)
+						}
+					}
+				}
+				collected = len(feeders) > 0
+				for _, ap := range feeders {
+					if !core.CutMakesUnreachable(hu, nil, miss, ap) {
+						collected = false
+					}
+					for _, e := range miss {
+						w := &core.Walk{
+							Stop: func(in ssa.Instruction) bool { return in == ssa.Instruction(ap) },
+							Visit: func(in ssa.Instruction) {
+								switch in.(type) {
+								case *ssa.Next, *ssa.Return:
+									collected = false
+								}
+							},
+						}
+						w.FromEdge(e.From, e.Succ)
+					}
+				}
+				// the prune call is the unconditional body of the loop over the collected names
+				if collected {
+					lp, inLoop := core.InnermostLoop(pc.Block())
+					if !inLoop || (pc.Block() != lp.Header && pc.Block().Idom() != lp.Header) {
+						collected = false
+					}
+				}
+			}
+			if direct || collected {
 				r.Hold("C17.3", core.FuncName(hu), p.Pos(pc.Pos()), "every stored service name missing from the new list is pruned")
 			} else {
 				r.Violate("C17.3", core.FuncName(hu), p.Pos(pc.Pos()), "the prune of unexported services is not driven by (stored service list) minus (new export list)")
@@ -321,21 +369,17 @@ func checkExportConsumerGuard(c *Ctx) {
 		r.Unresolve("C17.2", "state.exportedServicesForPeerTxn", "not found")
 		return
 	}
-	// the match: consumer.Peer == peering.Name
-	var matchEdges []core.Edge
-	for _, b := range f.Blocks {
-		for _, in := range b.Instrs {
-			cmp, ok := in.(*ssa.BinOp)
-			if !ok || cmp.Op != token.EQL {
-				continue
-			}
-			fx, fy := core.AccessOf(cmp.X).LastField(), core.AccessOf(cmp.Y).LastField()
-			if (fx == "Peer" && fy == "Name") || (fx == "Name" && fy == "Peer") {
-				te, _ := core.CondEdges(cmp)
-				matchEdges = append(matchEdges, te...)
-			}
+	// the match: consumer.Peer == peering.Name — in the function or in a predicate it calls
+	matchEdges := core.GuardEdges(f, 2, func(cv core.CmpView) (bool, bool) {
+		if cv.Op != token.EQL && cv.Op != token.NEQ {
+			return false, false
 		}
-	}
+		fx, fy := core.AccessOf(cv.X).LastField(), core.AccessOf(cv.Y).LastField()
+		if (fx == "Peer" && fy == "Name") || (fx == "Name" && fy == "Peer") {
+			return cv.Op == token.EQL, cv.Op == token.NEQ
+		}
+		return false, false
+	})
 	if len(matchEdges) == 0 {
 		r.Violate("C17.2", core.FuncName(f), p.FuncPos(f), "no comparison of an exported-services consumer with the peering's name: every service is offered to every peer")
 		return
